@@ -205,6 +205,11 @@ def r01_4(prog, out):
         recs = [e for e in prog.effects(bid) if e.touches(R.outstanding) and e.touches(R.t_messages) and e.kind in L.INSERT_KINDS]
         for e in effs:
             key = "pop:%s" % prog.short(bid)
+            if e.chain and prog.facts.body(e.chain[0][0]) is not None and prog.facts.body(e.chain[0][0]).kind == "Closure" \
+                    and not prog.facts.body(e.chain[0][0]).coroutine and recs:
+                out.undecided(key, bi.loc(e.bb), "the backlog is popped inside a closure that a lazy iterator drives (iter::from_fn / map ..): which "
+                              "pops pair with which records depends on how often the iterator is advanced, which path analysis of this body does not decide")
+                continue
             if not recs:
                 out.violation(key, bi.loc(e.bb), "messages popped from the backlog are never recorded as outstanding: an unacked message is lost for good")
                 continue
@@ -399,6 +404,10 @@ def r01_6(prog, out):
             recv = bi.trace(t.args[0])
             ctor_call = fi.call_at(ins[1].bb)
             topic_args = [a for a in ctor_call.args if (fi.body.operand_ty(a) or "").startswith("std::sync::Arc<%s" % A.ty("Topic"))]
+            if not topic_args:
+                # the registration step is written out in this body: the topic handed to the subscription's constructor
+                for cbb2, ct2 in fi.calls(lambda c: c.target == A.ty("Subscription") + "::new"):
+                    topic_args = [a for a in ct2.args if (fi.body.operand_ty(a) or "").startswith("std::sync::Arc<%s" % A.ty("Topic"))]
             same = False
             if topic_args:
                 o2 = fi.trace(topic_args[0])
